@@ -460,7 +460,7 @@ fn run_threads(plan: &Plan, out: &mut Outcome) -> (Vec<Vec<CallOut>>, Vec<CallOu
         plan.threads.iter().map(|c| vec![None; c.len()]).collect(),
     ));
     seams::set_mode(seams::Mode::Threads);
-    threads::start(&plan.sched, plan.threads.len(), plan.alloc_yield_mean as u64, plan.block_yield_mean as u64, plan.atomic_yield_mean as u64);
+    threads::start(&plan.sched, plan.threads.len(), plan.alloc_yield_mean as u64, plan.block_yield_mean as u64, plan.atomic_yield_mean as u64, plan.atomic_hold_mean as u64);
     let mut handles = Vec::new();
     for (t, calls) in plan.threads.iter().enumerate() {
         let calls = calls.clone();
